@@ -192,18 +192,26 @@ func inv_recUnmarshal1(v *AVCDecoderConfigurationRecord, old_v AVCDecoderConfigu
 
 //@ assigns (*AVCDecoderConfigurationRecord).UnmarshalBinary v.*, v.SequenceParameterSetNALUnits[*], v.PictureParameterSetNALUnits[*]
 
-// ---------- bounded stand-ins for the list-level round trips (children of any size) ----------
+// ---------- bounded stand-ins for the list-level round trips ----------
+// Lists of fixed shape with NAL units of fixed sizes at the boundaries the statement names (1, 255, 256, 65535 bytes)
+// and ARBITRARY contents and header fields. Callees are inlined, loops unrolled: bounded, not counted as proofs.
 
-// record with 2 SPS and 1 PPS: exact ISO layout and round trip
-//@ requires lemma_C12_recordRoundtrip_2_1
-func req_lemma_rec21(s0, s1, p0 *NALU) bool {
-	return spec_wfNALU(s0) && spec_wfNALU(s1) && spec_wfNALU(p0) && 1+len(s0.Data) <= 65535 && 1+len(s1.Data) <= 65535 && 1+len(p0.Data) <= 65535
+func prim_havoc(b []byte) {} // the buffer's contents become arbitrary (engine primitive)
+
+func spec_mkNALU(refIDC, typ uint8, size int) *NALU {
+	n := NewNALU()
+	n.NALRefIDC, n.NALUType = NALRefIDC(refIDC&3), NALUType(typ&0x1f)
+	n.Data = make([]byte, size-1)
+	prim_havoc(n.Data)
+	return n
 }
 
-//@ bounded lemma_C12_recordRoundtrip_2_1 4
-//@ thorough lemma_C12_recordRoundtrip_2_1
-//@ lemma C12.record.roundtrip.bounded
-func lemma_C12_recordRoundtrip_2_1(profile, compat, level, lsm1 uint8, s0, s1, p0 *NALU) bool {
+func spec_sameNALU(a, b *NALU) bool {
+	return a != nil && b != nil && a.NALRefIDC == b.NALRefIDC && a.NALUType == b.NALUType && prim_eqbytes(a.Data, b.Data)
+}
+
+// record with 2 SPS and 1 PPS: exact ISO layout and round trip
+func spec_recordRoundtrip(profile, compat, level, lsm1 uint8, s0, s1, p0 *NALU) bool {
 	r := NewAVCDecoderConfigurationRecord()
 	r.AVCProfileIndication, r.profileCompatibility, r.AVCLevelIndication, r.LengthSizeMinusOne = AVCProfile(profile), compat, AVCLevel(level), lsm1&3
 	r.SequenceParameterSetNALUnits = []*NALU{s0, s1}
@@ -212,7 +220,6 @@ func lemma_C12_recordRoundtrip_2_1(profile, compat, level, lsm1 uint8, s0, s1, p
 	if err != nil {
 		return false
 	}
-	// ISO layout
 	n0, n1, m0 := 1+len(s0.Data), 1+len(s1.Data), 1+len(p0.Data)
 	if len(b) != 6+2+n0+2+n1+1+2+m0 {
 		return false
@@ -233,52 +240,48 @@ func lemma_C12_recordRoundtrip_2_1(profile, compat, level, lsm1 uint8, s0, s1, p
 	if len(q.SequenceParameterSetNALUnits) != 2 || len(q.PictureParameterSetNALUnits) != 1 {
 		return false
 	}
-	t0, t1, u0 := q.SequenceParameterSetNALUnits[0], q.SequenceParameterSetNALUnits[1], q.PictureParameterSetNALUnits[0]
-	return t0.NALRefIDC == s0.NALRefIDC && t0.NALUType == s0.NALUType && prim_eqbytes(t0.Data, s0.Data) &&
-		t1.NALRefIDC == s1.NALRefIDC && t1.NALUType == s1.NALUType && prim_eqbytes(t1.Data, s1.Data) &&
-		u0.NALRefIDC == p0.NALRefIDC && u0.NALUType == p0.NALUType && prim_eqbytes(u0.Data, p0.Data)
+	return spec_sameNALU(q.SequenceParameterSetNALUnits[0], s0) && spec_sameNALU(q.SequenceParameterSetNALUnits[1], s1) && spec_sameNALU(q.PictureParameterSetNALUnits[0], p0)
 }
 
-// sample with 2 NAL units, for each NAL length size: big-endian length prefixes and round trip
-func spec_sampleFits(lsm1 uint8, n0, n1 *NALU) bool {
-	if !(lsm1 <= 3 && spec_wfNALU(n0) && spec_wfNALU(n1)) {
-		return false
-	}
-	lim := uint64(1) << (8 * (uint(lsm1) + 1))
-	return uint64(1+len(n0.Data)) < lim && uint64(1+len(n1.Data)) < lim
+//@ bounded lemma_C12_recordRoundtrip_sizes_1_256_65535 4
+//@ thorough lemma_C12_recordRoundtrip_sizes_1_256_65535
+//@ lemma C12.record.roundtrip.bounded
+func lemma_C12_recordRoundtrip_sizes_1_256_65535(profile, compat, level, lsm1, h0, t0, h1, t1, h2, t2 uint8) bool {
+	return spec_recordRoundtrip(profile, compat, level, lsm1, spec_mkNALU(h0, t0, 1), spec_mkNALU(h1, t1, 256), spec_mkNALU(h2, t2, 65535))
 }
 
-//@ requires lemma_C12_sampleRoundtrip_size1
-func req_lemma_sample_1(n0, n1 *NALU) bool { return spec_sampleFits(0, n0, n1) }
+//@ bounded lemma_C12_recordRoundtrip_sizes_255_2_1 4
+//@ lemma C12.record.roundtrip.bounded
+func lemma_C12_recordRoundtrip_sizes_255_2_1(profile, compat, level, lsm1, h0, t0, h1, t1, h2, t2 uint8) bool {
+	return spec_recordRoundtrip(profile, compat, level, lsm1, spec_mkNALU(h0, t0, 255), spec_mkNALU(h1, t1, 2), spec_mkNALU(h2, t2, 1))
+}
 
+// samples with 2 NAL units at the boundary sizes of each NAL length size: big-endian length prefixes and round trip
 //@ bounded lemma_C12_sampleRoundtrip_size1 6
-//@ thorough lemma_C12_sampleRoundtrip_size1
 //@ lemma C12.sample.roundtrip.bounded
-func lemma_C12_sampleRoundtrip_size1(n0, n1 *NALU) bool { return spec_sampleRoundtrip2(0, n0, n1) }
-
-//@ requires lemma_C12_sampleRoundtrip_size2
-func req_lemma_sample_2(n0, n1 *NALU) bool { return spec_sampleFits(1, n0, n1) }
+func lemma_C12_sampleRoundtrip_size1(h0, t0, h1, t1 uint8) bool {
+	return spec_sampleRoundtrip2(0, spec_mkNALU(h0, t0, 255), spec_mkNALU(h1, t1, 1))
+}
 
 //@ bounded lemma_C12_sampleRoundtrip_size2 6
 //@ thorough lemma_C12_sampleRoundtrip_size2
 //@ lemma C12.sample.roundtrip.bounded
-func lemma_C12_sampleRoundtrip_size2(n0, n1 *NALU) bool { return spec_sampleRoundtrip2(1, n0, n1) }
-
-//@ requires lemma_C12_sampleRoundtrip_size3
-func req_lemma_sample_3(n0, n1 *NALU) bool { return spec_sampleFits(2, n0, n1) }
+func lemma_C12_sampleRoundtrip_size2(h0, t0, h1, t1 uint8) bool {
+	return spec_sampleRoundtrip2(1, spec_mkNALU(h0, t0, 65535), spec_mkNALU(h1, t1, 256))
+}
 
 //@ bounded lemma_C12_sampleRoundtrip_size3 6
-//@ thorough lemma_C12_sampleRoundtrip_size3
 //@ lemma C12.sample.roundtrip.bounded
-func lemma_C12_sampleRoundtrip_size3(n0, n1 *NALU) bool { return spec_sampleRoundtrip2(2, n0, n1) }
-
-//@ requires lemma_C12_sampleRoundtrip_size4
-func req_lemma_sample_4(n0, n1 *NALU) bool { return spec_sampleFits(3, n0, n1) }
+func lemma_C12_sampleRoundtrip_size3(h0, t0, h1, t1 uint8) bool {
+	return spec_sampleRoundtrip2(2, spec_mkNALU(h0, t0, 1), spec_mkNALU(h1, t1, 257))
+}
 
 //@ bounded lemma_C12_sampleRoundtrip_size4 6
 //@ thorough lemma_C12_sampleRoundtrip_size4
 //@ lemma C12.sample.roundtrip.bounded
-func lemma_C12_sampleRoundtrip_size4(n0, n1 *NALU) bool { return spec_sampleRoundtrip2(3, n0, n1) }
+func lemma_C12_sampleRoundtrip_size4(h0, t0, h1, t1 uint8) bool {
+	return spec_sampleRoundtrip2(3, spec_mkNALU(h0, t0, 65536), spec_mkNALU(h1, t1, 2))
+}
 
 func spec_sampleRoundtrip2(lsm1 uint8, n0, n1 *NALU) bool {
 	s := NewAVCSample(lsm1)
@@ -308,8 +311,7 @@ func spec_sampleRoundtrip2(lsm1 uint8, n0, n1 *NALU) bool {
 	if len(q.NALUs) != 2 {
 		return false
 	}
-	return q.NALUs[0].NALRefIDC == n0.NALRefIDC && q.NALUs[0].NALUType == n0.NALUType && prim_eqbytes(q.NALUs[0].Data, n0.Data) &&
-		q.NALUs[1].NALRefIDC == n1.NALRefIDC && q.NALUs[1].NALUType == n1.NALUType && prim_eqbytes(q.NALUs[1].Data, n1.Data)
+	return spec_sameNALU(q.NALUs[0], n0) && spec_sameNALU(q.NALUs[1], n1)
 }
 
 // ---------- AVCSample ----------
